@@ -6,7 +6,7 @@
 (* rendered text into tokens (layout-independent: names, metavariables and *)
 (* help texts are unique tokens) and TLC compares token sets.              *)
 (***************************************************************************)
-EXTENDS GroupLine, Json, IOUtils
+EXTENDS GroupLine, Json, IOUtils, Usage
 
 LeavesOf(lvl)   == UNION {FieldLeaves(lvl.named[k]) : k \in DOMAIN lvl.named}
 PosItemsOf(lvl) == (IF lvl.tail.kind = "pos" THEN RangeOf(lvl.tail.items)
@@ -60,6 +60,9 @@ Problems(r) ==
                  \cup (IF r.kind = "help" /\ "usage_token" \in DOMAIN lvl /\ lvl.usage_token \notin all THEN {lvl.usage_token} ELSE {}),
    forbidden |-> MustNotMention(lvl) \cap all,
    foreign   |-> IF r.kind = "help" THEN {t \in items : NameLike(t)} \ MayList(lvl) ELSE {},
+   \* the usage line is exactly the one Usage.tla computes from the definition (a line supplied by the program aside)
+   usage     |-> IF r.kind = "help" /\ "usage" \in DOMAIN r /\ "usage_token" \notin DOMAIN lvl /\ r.usage # UsageLineS(lvl, r.path, "")
+                 THEN UsageLine(lvl, r.path) ELSE "",
    order     |-> IF r.kind # "help" THEN TRUE
                  ELSE LET o == r.order  Lt(a, b) == a = 0 \/ b = 0 \/ a < b IN
                       /\ Lt(o.descr, o.usage) /\ Lt(o.usage, o.header) /\ Lt(o.header, o.items) /\ Lt(o.items, o.footer)
@@ -67,7 +70,7 @@ Problems(r) ==
 HInit == l = 1 /\ bad = 0 /\ def = DefSeq[1] /\ env = <<>> /\ line = <<>> /\ st = 0
 HNext == /\ l <= Len(Rec)
          /\ LET p == Problems(Rec[l]) IN
-            IF p.missing = {} /\ p.forbidden = {} /\ p.foreign = {} /\ p.order THEN bad' = bad
+            IF p.missing = {} /\ p.forbidden = {} /\ p.foreign = {} /\ p.order /\ p.usage = "" THEN bad' = bad
             ELSE PrintT(<<"REJECT", l, ToJson(p)>>) /\ bad' = bad + 1
          /\ l' = l + 1 /\ UNCHANGED vars
 AllConsumed == IF TLCGet("stats").diameter - 1 = Len(Rec) THEN TRUE
